@@ -22,7 +22,7 @@
    command took a bare token as mandatory argument (those get braces). *)
 From Coq Require Import List NArith ZArith Bool.
 From TexModel Require Import Base Tables Chars Tokenizer Tree Reader.
-From TexProofs Require Import TokProofs ReaderLen ReaderCons ConsTop.
+From TexProofs Require Import TokProofs ReaderLen ReaderCons ConsTop ConsBridge.
 Import ListNotations.
 
 Theorem C08_conserves :
@@ -32,6 +32,24 @@ Theorem C08_conserves :
     Rel false toks (estr t).
 Proof. intros s user t toks. exact (parse_conserves_hyp s true user t toks). Qed.
 Print Assumptions C08_conserves.
+
+(* string level, all hypotheses decidable: the output is the concatenation of a
+   sub-list `kept` of the input's tokens, in order, where every dropped token is
+   a MergedSpacer standing directly before a GroupBegin/BracketBegin token
+   (`Kept`, Proofs/ConsBridge.v): nothing lost, duplicated, reordered, invented *)
+Theorem C08_conserves_string :
+  forall (s : str) (user : list str) (t : expr),
+    parse s true user = Ok t ->
+    hypb (all_skip user) (fst (tokens_of_string s)) = true -> nobare t = true ->
+    exists kept, Kept (fst (tokens_of_string s)) kept /\ estr t = texts kept.
+Proof. exact parse_strict_kept. Qed.
+Print Assumptions C08_conserves_string.
+
+(* the structural-token hypothesis of `Hyp` holds for every tokenizer output *)
+Theorem C08_tokenizer_output_wf :
+  forall (s : str) toks e, tokens_of_string s = (toks, e) -> Forall tok_wf toks.
+Proof. exact tokenize_wf. Qed.
+Print Assumptions C08_tokenizer_output_wf.
 
 (* and the token texts are the input (without NUL/DEL: exactly the input) *)
 Theorem C08_tokens_are_input :
